@@ -129,6 +129,22 @@ func WaitStragglers() {
 	}
 }
 
+// WaitFrames waits until no goroutine of the process has a frame whose function name contains
+// sub (bounded): used to let the workers of an aborted call finish before the storage is closed.
+func WaitFrames(sub string) {
+	digGate.Lock()
+	defer digGate.Unlock()
+
+	for i := 0; i < 5000; i++ {
+		n := runtime.Stack(stackBuf, true)
+		if !bytes.Contains(stackBuf[:n], []byte(sub)) {
+			return
+		}
+
+		time.Sleep(time.Millisecond)
+	}
+}
+
 // ReadRound runs f (calls of Center's reads) so that no storage is closed meanwhile.
 func ReadRound(f func()) {
 	digGate.RLock()
